@@ -1,2 +1,4 @@
-/- C09 — splitting yields exactly the connected components: theorems are in Props/C09Split.lean. -/
+/- C09 — splitting yields exactly the connected components: the utility theorems are in Props/C09Split.lean, the
+   object-level theorems about `split()` on the World model in Props/C09Obj.lean. -/
 import DsdVerif.Props.C09Split
+import DsdVerif.Props.C09Obj
